@@ -1,14 +1,20 @@
 """C05 bounded stand-in: the same settings give the same configuration through every input channel.
 
-Relational contract.  For a parser with one key of type T (flat `k`, or nested `g.k` next to `g.o:int=0`) and one JSON-like
-value v, the setting {key: v} is delivered through every channel
+Relational contract, part 1 (one key).  A parser has a key of type T at three positions: flat `k`, in a dotted group
+`g.k` (next to `g.o:int=0`) and in a dataclass group `dc.k` (`@dataclass DC: k: T = None; o: int = 0`).  One JSON-like
+value v is delivered as the setting {key: v} through every channel
     argv (`--key=text`), env (`APP_KEY=text`, parse_args(env=True)), penv (parse_env()), cfgfile (`--cfg=file`),
-    cfgstr (`--cfg=<json>`), string (parse_string), path (parse_path), object (parse_object)
-(the five document channels and parse_object also with the dotted spelling {"g.k": v} when the key is nested), under
-parser_mode yaml, json, omegaconf and - for a stated subset, it is 30x slower - jsonnet.  Documents are JSON texts.
+    cfgstr (`--cfg=<json>`), envcfg (`APP_CFG=<json>`), string (parse_string), path (parse_path), object (parse_object),
+    argvgroup (`--dc=<json of the group>`, dataclass position only)
+- the document channels and parse_object also with the dotted spelling {"g.k": v} when the key is nested - under
+parser_mode yaml, json, omegaconf and, for a stated subset (it is 30x slower), jsonnet.  Documents are JSON texts.
 The text of v on argv / in the environment is the raw string for a top-level string and json.dumps(v) otherwise.
-
 Contract: all outcomes are equal (same normalised namespace, type-sensitive) or all are rejections.
+
+Part 2 (several keys in one document).  For every non-empty subset of {G.k, G.o, G.h.z}, every spelling of every key
+(each dot either splits into a nested mapping or stays inside a mapping key) and every order of the keys in the
+document, the document must give, through every document channel and mode, what the same options give on the
+command line.  A failing document is shrunk by dropping keys; the canonical key names the spelling shapes.
 
 Scope of the comparison follows the quantifier of the property ("settings whose textual form is unambiguous: non-string
 values, and strings at str-typed positions"):
@@ -16,13 +22,14 @@ values, and strings at str-typed positions"):
     or where a string is the only way to write the value (Enum member name, Literal string, path of Path_fr), or - letters
     only - at Optional/Union positions that admit str;
   * a non-string value whose TOP-LEVEL type admits free text (str or Path_fr, directly or through Optional/Union) has an
-    ambiguous text on the command line (`--k=1` is the string "1" there), so for it only the typed channels
-    (cfgfile, cfgstr, string, path, object; all modes, both spellings) are compared with each other and the text channels
-    (argv, env, penv) with each other; keys of such evaluations carry the marker `typed-only`.
+    ambiguous text on the command line (`--k=1` is the string "1" there), so for it only the typed channels are compared
+    with each other and the text channels (argv, env, penv) with each other; such keys carry `typed-only` / `text-only`.
 Oracle: none needed (relational); the classification above is computed from the type term by this file.
 
 A divergence is re-run on freshly built parsers before it is reported (so that a history effect, property C09, is not
-mistaken for a channel effect).  The canonical key names the type, the value, the position and the diverging channels.
+mistaken for a channel effect).  The canonical key is c05:<scope>:<symptom>:<type>:<value>:<positions>:<diverging
+channels>; the symptom (null-unchecked-in-config, raw-argument-text-as-element, different-values, accept-vs-reject) is
+computed from the outcomes only; violations that differ only in the key position are merged into one key.
 """
 import dataclasses
 import enum
